@@ -30,7 +30,7 @@ for d in sorted(glob.glob(os.path.join(here, 'seeded', 'C??[GH]'))):
         'demo': {'file': 'demo_test.go', 'dir': a.get('demo_dir', '.') or '.'},
         'demo_dir': a.get('demo_dir', '.') or '.',
         'written_by': 'independent sub-agent given only the property text, the list of functions earlier campaigns had used, and a scratch worktree (fourth campaign)',
-        'rebased': False, 'campaign': 4, 'confirmed_independently': bool(confirmed),
+        'rebased': name in ('C02H',), 'campaign': 4, 'confirmed_independently': bool(confirmed),
         'what_was_run': [
             'tools/seedverify.sh on the staged change (scratch worktree: patch applies, go build, full test suite passes with the change, demo fails with it and passes without it)',
             'first run: each change against its own property\'s quick check as committed at 9ea9625 (vp run snapshot, scratch worktree through VERIF_REPO), before the changes were looked at; the machine was shared with a thorough-tier run, bounds that ran out of budget are counted in incomplete_bounds',
